@@ -62,6 +62,12 @@ def _registry_name(table, name):
     return name
 
 
+def _family(table):
+    """The registry family (RegByCode key) of a reverse (code -> name) table."""
+    return {'dwarf.callframe._OPCODE_NAME_MAP': 'DW_CFA_BASE', 'dwarf.dwarf_expr.DW_OP_opcode2name': 'DW_OP_BASE',
+            'dwarf.enums.DW_FORM_raw2name': 'DW_FORM_BASE'}.get(table, '')
+
+
 def _digs(v):
     v &= 0xffffffffffffffff
     return list(v.to_bytes(max(1, (v.bit_length() + 7) // 8), 'little'))
@@ -73,7 +79,7 @@ def _undigs(d):
 
 def check(run):
     pairs = _pairs()
-    events = [{'table': t, 'name': _registry_name(t, n), 'value': _digs(v), 'kind': k} for t, n, v, k in pairs]
+    events = [{'table': t, 'name': _registry_name(t, n), 'value': _digs(v), 'kind': k, 'family': _family(t)} for t, n, v, k in pairs]
     trace = run.trace_file('registry', events)
     res = run.tlc('RegistryTrace', 'RegistryTrace', env={'TRACE': trace}, workers=1)
     verdicts = list(run.cases(res.out))
